@@ -42,6 +42,7 @@ type Config struct {
 	Unwind           int               `json:"unwind"`
 	AllocBudget      bool              `json:"allocBudget"`
 	Preempt          int               `json:"preemptions"`
+	MaxGoroutines    int               `json:"maxGoroutines"`
 	Sched            bool              `json:"sched"`
 	Env              map[string]string `json:"env"`
 }
@@ -830,6 +831,14 @@ func (c *Ctx) verifCall(fr *Frame, fn *ssa.Function, args []Value) (Value, bool)
 	case "verifIsSymbolic":
 		return tb.Bool(true), true
 	case "verifNote":
+		if c.sched != nil {
+			c.sched.note("g%d:%s", c.sched.cur.id, tagOf(0))
+		}
+		return nil, true
+	case "verifQuiesce":
+		if c.sched != nil {
+			c.sched.quiesce(fr)
+		}
 		return nil, true
 	case "verifYield":
 		if c.sched != nil {
